@@ -119,6 +119,9 @@ func runSolver(ctx context.Context, sp solverSpec, file string, timeoutS int) (s
 
 // solveOne races the solvers on one obligation file.
 func solveOne(o *Obligation, file string, opts solveOpts) {
+	if o.Cover && opts.timeoutS > 3 {
+		opts.timeoutS = 3 // reachability covers are advisory unless they come back unsat
+	}
 	ctx, cancel := context.WithCancel(context.Background())
 	defer cancel()
 	type res struct {
